@@ -54,16 +54,20 @@ pub fn main(args: &[String]) {
                     if let Ok(f) = read_fonts::FontRef::new(&bytes) {
                         let base_ptr = bytes.as_ptr() as usize;
                         let mut spots: Vec<usize> = vec![];
-                        for tag in [b"head", b"hhea", b"vhea", b"OS/2", b"maxp", b"post", b"hmtx", b"vmtx"] {
-                            if let Some(d) = f.data_for_tag(font_types::Tag::new(tag)) {
-                                let off = d.as_bytes().as_ptr() as usize - base_ptr;
-                                for p in (0..d.len().min(100)).step_by(2) {
-                                    spots.push(off + p);
-                                }
+                        for rec in f.table_directory.table_records() {
+                            let Some(d) = f.data_for_tag(rec.tag()) else { continue };
+                            let off = d.as_bytes().as_ptr() as usize - base_ptr;
+                            let metric = [b"head", b"hhea", b"vhea", b"OS/2", b"maxp", b"post", b"hmtx", b"vmtx"].iter().any(|t| rec.tag() == font_types::Tag::new(t));
+                            for p in (0..d.len().min(if metric { 100 } else { 40 })).step_by(2) {
+                                spots.push(off + p);
+                            }
+                            // and a sample of fields deeper inside the table
+                            for _ in 0..(if d.len() > 64 { 16 } else { 0 }) {
+                                spots.push(off + (rng.below(d.len() as u64 - 4) as usize & !1));
                             }
                         }
                         for (k, p) in spots.iter().enumerate() {
-                            for (a, b2) in [(0x7FFFu16, None), (0x8000, None), (0xFFFF, None), (0x7FFF, Some(0x8000u16)), (0x8000, Some(0x7FFF))] {
+                            for (a, b2) in [(0x7FFFu16, None), (0x8000, None), (0xFFFF, None), (0x7FFF, Some(0x8000u16)), (0x8000, Some(0x7FFF)), (0xFFFF, Some(0xFFFFu16)), (0x7FFF, Some(0xFFFF))] {
                                 if (k + a as usize) % per_field != 0 {
                                     continue;
                                 }
